@@ -88,9 +88,57 @@ def Container.norm : Container → List (Bytes × Bytes × Bool)
   | .iterable fs => fs.map FieldForm.norm
   | .dict items => (dictOrder items).map fun kv => (kv.1.toBytes, kv.2.toBytes, false)
 
-/-- `Encoder.encode(headers, huffman)` on any accepted input form -/
+/-- `Encoder.encode(headers, huffman)` on any accepted input form, via the normal form -/
 def EncState.encodeApi (strict : Bool) (e : EncState) (c : Container) (huff : Bool) : Out (Bytes × EncState) :=
   e.encode strict c.norm huff
+
+/-! #### the loop of `Encoder.encode` as it is written
+
+```
+if self.header_table.resized: header_block.append(self._encode_table_size_change()); resized = False
+hpack_headers = _dict_to_iterable(headers) if isinstance(headers, dict) else iter(headers)
+for header in hpack_headers:
+    sensitive = False
+    if isinstance(header, HeaderTuple): sensitive = not header.indexable
+    elif len(header) > 2:               sensitive = header[2]
+    new_header = (_to_bytes(header[0]), _to_bytes(header[1]))
+    header_block.append(self.add(new_header, sensitive, huffman))
+```
+`encodeForms` follows this text: the flag is re-initialised for every header and read from the header's own
+shape; names and values are converted one header at a time; a dict is first turned into 2-tuples in
+`_dict_to_iterable` order. `Props.C18.forms_factor` proves it equal to `encodeApi` (encode after `norm`). -/
+
+def FieldForm.name : FieldForm → PyStr
+  | .tuple2 n _ | .tuple3 n _ _ | .headerTuple n _ | .neverTuple n _ => n
+def FieldForm.value : FieldForm → PyStr
+  | .tuple2 _ v | .tuple3 _ v _ | .headerTuple _ v | .neverTuple _ v => v
+
+/-- one iteration's `sensitive` -/
+def FieldForm.sensitiveFlag (f : FieldForm) : Bool :=
+  let sensitive := false                       -- `sensitive = False`
+  match f with
+  | .headerTuple _ _ => !true                  -- `not header.indexable` (HeaderTuple.indexable = True)
+  | .neverTuple _ _ => !false                  -- NeverIndexedHeaderTuple.indexable = False
+  | .tuple3 _ _ s => s                         -- `len(header) > 2`: `header[2]`, by truthiness
+  | .tuple2 _ _ => sensitive
+
+def Container.items : Container → List FieldForm
+  | .iterable fs => fs
+  | .dict items => (dictOrder items).map fun kv => .tuple2 kv.1 kv.2
+
+def encodeFormsLoop (strict huff : Bool) : EncState → Bytes → List FieldForm → Out (Bytes × EncState)
+  | e, acc, [] => pure (acc, e)
+  | e, acc, f :: rest => do
+    let (b, e') ← e.add strict f.name.toBytes f.value.toBytes f.sensitiveFlag huff
+    encodeFormsLoop strict huff e' (acc ++ b) rest
+
+def EncState.encodeForms (strict : Bool) (e : EncState) (c : Container) (huff : Bool) : Out (Bytes × EncState) :=
+  let (pre, e) :=
+    if e.table.resized then
+      (e.changes.flatMap (fun n => orFirst (encodeInt n 5) 0x20),
+       ({ table := { e.table with resized := false }, changes := [] } : EncState))
+    else ([], e)
+  encodeFormsLoop strict huff e pre c.items
 
 /-! ### the tree as it stands
 
